@@ -42,3 +42,21 @@ func init() {
 		[]string{"the executor runs submitted closures", "loaders are opaque user functions"},
 		ruleLoadLemma, ruleLoadOps, ruleBulkOps, ruleC11ReloadArg, ruleC10TableC10, ruleC12Hooks)
 }
+
+func init() {
+	register("C04",
+		"Decides the structural clauses the size bound rests on, on every enumerated path of the policy handlers: zero-weight entries are never handed to the eviction callback by the eviction loops and are skipped by the window transfer (C04.zero); every eviction happens in an iteration guarded by weightedSize > maximum, re-read after each callback (C04.loop); oversized entries are evicted by add/update (C04.over); the running totals are written only by their handlers, add/update count a weight exactly once on every path, makeDead releases it exactly once under the not-dead guard (C04.acct); SetMaximum stores the maximum and runs maintenance under one lock section, maintenance replays writes before evicting (C04.setmax); every table change produces its replay task and the update handler leaves the new node reachable by the policy (C05.task, C05.transplant). "+
+			"NOT decided: the bound itself (sum of weights <= maximum) over histories and schedules; absence of uint64 underflow in the totals.",
+		[]string{"the eviction callback updates the policy's counters (modelled as havoc of the policy's fields)", "deque operations behave as C05.deque decides"},
+		rulePolicy, ruleDeque, ruleC04SetMax, ruleC05Task, ruleC05RunTask, ruleC13Order)
+	register("C05",
+		"Decides, per path, that policy bookkeeping follows the table: every table change yields exactly one matching replay task (C05.task); the replay handler applies each task kind completely (C05.runTask); add links only alive nodes (C05.alive); the update handler leaves the new node linked - transplant only from a contained predecessor, else window entry (C05.transplant); the eviction callback unlinks, unschedules and kills on all paths (C05.evict); the intrusive deque clears links of removed/replaced nodes and keeps len in step (C05.deque); totals are written only by their handlers (C04.acct); policy, deque, wheel and node link state is written, and both buffers are consumed, only with the eviction lock held (C05.lockctx); no task is dropped on enqueue (C14.after). "+
+			"NOT decided: equality of the counters with the sum of weights and set(Coldest)=set(All) as run-time facts.",
+		[]string{"tasks are replayed exactly once in producer order (C16)"},
+		ruleC05Task, ruleC05RunTask, rulePolicy, ruleDeque, ruleEvict, ruleC05LockCtx, ruleC14After)
+	register("C07",
+		"Decides the structural clauses of 'entries disappear only for a sanctioned, truthful reason': evictions for size happen only in iterations guarded by weightedSize > maximum and never hit zero-weight entries (C04.loop, C04.zero); window transfers only above the window maximum (C07.window); the eviction callback reports Expiration exactly when the victim is expired at its time and Overflow otherwise, and only the policy (which exists only with a size bound) and the timer wheel call it (C07.causeflow); the wheel expires only on deadline < wheel time and passes that time (C13.nodrop). "+
+			"NOT decided: 'total weight exceeded the maximum at that moment' as a numeric fact.",
+		[]string{"the running totals are right (C04.acct decides who writes them)"},
+		rulePolicy, ruleEvict, ruleC07CauseFlow, ruleC13NoDrop)
+}
